@@ -323,6 +323,8 @@ class Exec:
         k = op[0]
         if k == 'c':
             return op[1]
+        if k == 'flt':
+            return 0      # floating point values are never computed with (only libstdc++ load factors, whose users are stubbed)
         if k == 'null':
             return Ptr(0, 0)
         if k == 'g':
@@ -796,6 +798,15 @@ class Exec:
         stm, env = merged
         return stm, env['$ret']
 
+    def call_plain(s, st, name, args):
+        """call the real function even if an intercept is installed for it"""
+        ic = s.intercepts.pop(name, None)
+        try:
+            return s.call(st, name, args)
+        finally:
+            if ic is not None:
+                s.intercepts[name] = ic
+
     def enter_phis(s, fr, st, bb, prev):
         ins = fr.fn.blocks[bb]
         newv = {}
@@ -966,7 +977,9 @@ def step(s, fr, st, x):
     elif k == 'load':
         _, d, t, a, atomic = x
         p = s.val(st, fr, None, a)
-        if t.k in ('int', 'ptr'):
+        if t.k == 'fp':
+            env[d] = s.load(st, p, t.bits // 8, fr.fn.name)
+        elif t.k in ('int', 'ptr'):
             n = (t.bits + 7) // 8 if t.k == 'int' else 8
             v = s.load(st, p, n, fr.fn.name)
             if t.k == 'int':
@@ -998,6 +1011,8 @@ def step(s, fr, st, x):
             s.store(st, p, n, V)
         elif t.k == 'ptr':
             s.store(st, p, 8, V)
+        elif t.k == 'fp':
+            s.store(st, p, t.bits // 8, V)
         else:
             raise Abort('store of aggregate')
     elif k == 'alloca':
@@ -1093,12 +1108,46 @@ def intrinsic(s, st, name, A, args):
         return None
     if name.startswith('@llvm.memcpy') or name.startswith('@llvm.memmove'):
         dst, src, n = A[0], A[1], A[2]
-        if not is_c(n):
-            raise Abort('symbolic memcpy length')
+        if dst.sym or src.sym or not is_c(n):
+            # symbolic pointers and/or length: bound the length with the solver, then copy byte-wise under guards
+            if is_c(n):
+                nb, maxl = None, n
+            else:
+                nb = bv(n, 64)
+                maxl = None
+                for B in (16, 64, 256, 1024, 4096):
+                    if not s.feasible(st, z3.UGT(nb, B)):
+                        maxl = B
+                        break
+                if maxl is None:
+                    raise Abort('symbolic memcpy length (unbounded)')
+            for gd, dq in dst.alts():
+                for gs, sq in src.alts():
+                    gl = [g for g in (gd, gs) if g is not None]
+                    g = None if not gl else (z3.And(*gl) if len(gl) > 1 else gl[0])
+                    if g is not None and not s.feasible(st, g):
+                        continue
+                    sreg, dreg = st.mem[sq.r], st.mem[dq.r]
+                    lim = maxl
+                    if sreg.size is not None:
+                        lim = min(lim, sreg.size - sq.o)
+                    if dreg.size is not None:
+                        lim = min(lim, dreg.size - dq.o)
+                    lim = max(lim, 0)
+                    if lim < maxl:
+                        c = z3.ULE(nb, lim) if nb is not None else z3.BoolVal(False)
+                        s.oblig.append((list(st.pc) + ([g] if g is not None else []), c, 'memcpy stays inside %s/%s' % (sreg.name, dreg.name)))
+                    srcb = [s.load_byte(st, st.mem[sq.r], sq.r, sq.o + o) for o in range(lim)]
+                    for o in range(lim):
+                        old = s.load_byte(st, st.mem[dq.r], dq.r, dq.o + o)
+                        if isinstance(old, Ptr) or isinstance(srcb[o], Ptr):
+                            raise Abort('guarded memcpy over pointer bytes')
+                        cs = ([g] if g is not None else []) + ([z3.UGT(nb, o)] if nb is not None else [])
+                        c = z3.And(*cs) if len(cs) > 1 else cs[0]
+                        s.store(st, Ptr(dq.r, dq.o + o), 1, z3.If(c, bv(srcb[o], 8), bv(old, 8)))
+            return None
         if n == 0:
             return None
-        if dst.sym or src.sym:
-            raise Abort('symbolic memcpy ptr')
         sreg = st.mem[src.r]
         # copy cell-wise when aligned with cells, else bytes
         tmp = []
